@@ -1,6 +1,8 @@
 package core
 
 import (
+	"crypto/sha1"
+	"encoding/hex"
 	"fmt"
 	"sort"
 	"strings"
@@ -17,6 +19,7 @@ type Machine interface {
 // ReplayOpts configures ReplayGraph.
 type ReplayOpts struct {
 	New      func() Machine      // fresh implementation instance
+	NewFor   func(init State) Machine // alternative to New when the spec has several initial states
 	Abstract func(s State) string // canonical form of a spec state, comparable with Project()
 	// NonTrivial returns a key if the edge exercises the property's antecedent ("" otherwise).
 	NonTrivial func(from State, e Edge, to State) string
@@ -71,11 +74,24 @@ func ReplayGraph(c *Ctx, g *Graph, o ReplayOpts) (groups int) {
 			pathLabels = append(pathLabels, g.Edges[ei].Label)
 		}
 		full := append(append([]string{}, pathLabels...), gr.label)
-		key := o.SigPrefix + strings.Join(full, ";")
+		initNode := gr.node
+		if len(paths[gr.node]) > 0 {
+			initNode = g.Edges[paths[gr.node][0]].From
+		}
+		key := o.SigPrefix + initTag(g, initNode) + strings.Join(full, ";")
 		if !c.Want(o.SigPrefix) && !c.Want(key) {
 			continue
 		}
-		m := o.New()
+		var m Machine
+		if o.NewFor != nil {
+			in := gr.node
+			if len(paths[gr.node]) > 0 {
+				in = g.Edges[paths[gr.node][0]].From
+			}
+			m = o.NewFor(g.States[in])
+		} else {
+			m = o.New()
+		}
 		var err error
 		for _, ei := range paths[gr.node] {
 			e := g.Edges[ei]
@@ -158,12 +174,14 @@ func ReplayPaths(c *Ctx, g *Graph, o ReplayOpts, depth, maxPaths int) (paths int
 		cache[n] = s
 		return s
 	}
-	run := func(seq []int) { // seq: edge indices (first edge of each chosen label group along one spec path)
-		m := o.New()
-		cur := map[string]bool{}
-		for _, n := range g.Init {
-			cur[n] = true
+	run := func(init string, seq []int) { // seq: edge indices (first edge of each chosen label group along one spec path)
+		var m Machine
+		if o.NewFor != nil {
+			m = o.NewFor(g.States[init])
+		} else {
+			m = o.New()
 		}
+		cur := map[string]bool{init: true}
 		var labels []string
 		for _, ei := range seq {
 			e := g.Edges[ei]
@@ -185,9 +203,14 @@ func ReplayPaths(c *Ctx, g *Graph, o ReplayOpts, depth, maxPaths int) (paths int
 					}
 				}
 			}
+			if len(wants) == 0 {
+				// the label is not enabled in the specification state the implementation
+				// actually reached (the path was drawn along another nondeterministic branch)
+				break
+			}
 			if len(next) == 0 {
-				key := o.SigPrefix + strings.Join(labels, ";")
-				c.Violation(key, fmt.Sprintf("after %v the implementation is in %s but the specification allows only %v", labels, got, wants),
+				key := o.SigPrefix + initTag(g, init) + strings.Join(labels, ";")
+				c.Violation(key, fmt.Sprintf("from initial state "+fmtState(g.States[init])+" after %v the implementation is in %s but the specification allows only %v", labels, got, wants),
 					map[string]interface{}{"actions": labels, "got": got, "want": wants})
 				return
 			}
@@ -235,9 +258,19 @@ func ReplayPaths(c *Ctx, g *Graph, o ReplayOpts, depth, maxPaths int) (paths int
 	}
 	if c.Filter != "" && stringsHasPrefix(c.Filter, o.SigPrefix) {
 		// replay of one recorded behaviour
-		want := strings.Split(strings.TrimPrefix(c.Filter, o.SigPrefix), ";")
-		var seq []int
+		rest := strings.TrimPrefix(c.Filter, o.SigPrefix)
 		n := g.Init[0]
+		if i := strings.Index(rest, "|"); i >= 0 {
+			for _, in := range g.Init {
+				if initTag(g, in) == rest[:i+1] {
+					n = in
+				}
+			}
+			rest = rest[i+1:]
+		}
+		init := n
+		want := strings.Split(rest, ";")
+		var seq []int
 		for _, l := range want {
 			es := get(n).by[l]
 			if len(es) == 0 {
@@ -247,30 +280,31 @@ func ReplayPaths(c *Ctx, g *Graph, o ReplayOpts, depth, maxPaths int) (paths int
 			seq = append(seq, es[0])
 			n = g.Edges[es[0]].To
 		}
-		run(seq)
+		run(init, seq)
 		c.Trace(paths)
 		return paths
 	}
 	if total <= float64(maxPaths) {
-		var dfs func(n string, d int, seq []int)
-		dfs = func(n string, d int, seq []int) {
+		var dfs func(init, n string, d int, seq []int)
+		dfs = func(init, n string, d int, seq []int) {
 			s := get(n)
 			if d == 0 || len(s.labels) == 0 {
-				run(seq)
+				run(init, seq)
 				return
 			}
 			for _, l := range s.labels {
 				ei := s.by[l][0]
-				dfs(g.Edges[ei].To, d-1, append(seq, ei))
+				dfs(init, g.Edges[ei].To, d-1, append(seq, ei))
 			}
 		}
 		for _, n := range g.Init {
-			dfs(n, depth, nil)
+			dfs(n, n, depth, nil)
 		}
 		c.Extra(o.SigPrefix+"behaviours_exhaustive_to_depth", depth)
 	} else {
 		for i := 0; i < maxPaths; i++ {
 			n := g.Init[c.Rand.Intn(len(g.Init))]
+			init := n
 			var seq []int
 			for d := 0; d < depth; d++ {
 				s := get(n)
@@ -281,7 +315,7 @@ func ReplayPaths(c *Ctx, g *Graph, o ReplayOpts, depth, maxPaths int) (paths int
 				seq = append(seq, ei)
 				n = g.Edges[ei].To
 			}
-			run(seq)
+			run(init, seq)
 		}
 		c.Extra(o.SigPrefix+"behaviours_sampled", maxPaths)
 	}
@@ -290,3 +324,25 @@ func ReplayPaths(c *Ctx, g *Graph, o ReplayOpts, depth, maxPaths int) (paths int
 }
 
 func stringsHasPrefix(s, p string) bool { return strings.HasPrefix(s, p) }
+
+// initTag identifies an initial state in violation signatures when there are several.
+func initTag(g *Graph, init string) string {
+	if len(g.Init) <= 1 {
+		return ""
+	}
+	h := sha1.Sum([]byte(fmtState(g.States[init])))
+	return "i" + hex.EncodeToString(h[:4]) + "|"
+}
+
+func fmtState(s State) string {
+	keys := make([]string, 0, len(s))
+	for k := range s {
+		keys = append(keys, k)
+	}
+	sort.Strings(keys)
+	parts := make([]string, len(keys))
+	for i, k := range keys {
+		parts[i] = k + "=" + s[k].String()
+	}
+	return strings.Join(parts, ",")
+}
